@@ -7,6 +7,7 @@ import (
 	"encoding/json"
 	"errors"
 	"fmt"
+	"os"
 	"strings"
 	"time"
 
@@ -298,6 +299,7 @@ func Run(r *evid.Run) {
 			}
 		}
 	}
+	mergeWorkerPart(r)
 	done := par.For(int64(len(cases)), r.Expired, func(i int64) { exploreCase(r, cases[i], -1) })
 	if done < int64(len(cases)) {
 		r.Cap(fmt.Sprintf("deadline: %d of %d scenarios explored", done, len(cases)))
@@ -306,6 +308,48 @@ func Run(r *evid.Run) {
 	r.Assume("dragonboat contract modelled by the adapter: a proposal is committed when appended; its result is what the deterministic LFSM computes at that index; a stale read sees at least the node's own completed writes and any later prefix")
 	r.Assume("lease durations are +1h (long) and -1h (already expired), so no verdict depends on wall-clock timing")
 	r.Assume("traces_validated_against_impl counts executions: every step of every execution runs the real Manager and LFSM code (the Raft host is the modelled part; its adapter is conformance-checked under C13)")
+}
+
+// mergeWorkerPart reads what the worker-side test binary (checks/c15w, run by scripts/check.sh just
+// before this process) found. Without it the check is incomplete: an infrastructure error.
+func mergeWorkerPart(r *evid.Run) {
+	path := os.Getenv("VERIF_C15W_JSON")
+	b, err := os.ReadFile(path)
+	if path == "" || err != nil {
+		fmt.Println("INFRA: the result of the worker-side part of C15 is missing (run scripts/check.sh C15):", err)
+		os.Exit(2)
+	}
+	var res struct {
+		Paths      int64  `json:"paths"`
+		Events     int64  `json:"events"`
+		Observed   int64  `json:"observations_with_lease_flag_set"`
+		Takeovers  int64  `json:"paths_with_a_takeover"`
+		Rule       string `json:"rule"`
+		Distinct   int    `json:"distinct_outcomes"`
+		Violations []struct {
+			Sig    string          `json:"sig"`
+			Detail string          `json:"detail"`
+			Case   json.RawMessage `json:"case"`
+		} `json:"violations"`
+	}
+	if err := json.Unmarshal(b, &res); err != nil {
+		fmt.Println("INFRA: cannot read the result of the worker-side part of C15:", err)
+		os.Exit(2)
+	}
+	r.Rule(res.Rule)
+	r.Extra("worker_part_paths", res.Paths)
+	r.Extra("worker_part_events", res.Events)
+	r.Extra("worker_part_observations_with_lease_flag_set", res.Observed)
+	r.Extra("worker_part_paths_with_a_takeover", res.Takeovers)
+	r.Extra("worker_part_distinct_outcomes", res.Distinct)
+	r.Transitions.Add(res.Events)
+	r.Validated.Add(res.Paths)
+	for i := int64(0); i < res.Paths; i++ {
+		r.Evaluations.Add(1)
+	}
+	for _, v := range res.Violations {
+		r.Violate(v.Sig, v.Detail, v.Case)
+	}
 }
 
 func Replay(raw json.RawMessage) (string, bool) {
